@@ -142,6 +142,7 @@ def array_rules(facts, rep):
         for f in fns:
             base = f.qname.split('::')[-1]
             if base in ('operator[]', 'array', 'size', 'empty', 'begin', 'end', 'cbegin', 'cend', 'front', 'back', 'initialize', 'destroy'): continue
+            if f.d.get('access') in ('private', 'protected'): continue       # helpers are evaluated inlined into the public operations
             nfn += 1
             label = f'{short}::{f.name.split("::")[-1][:40]}({", ".join(p["type"][:24] for p in f.d["params"])})'
             try:
@@ -248,17 +249,43 @@ def check_array_path(rep, f, label, rows, dom, P, is_class, base):
             viol.append(('AR.3', None, 'the copy constructor stores the source\'s pointer (shallow copy)'))
         if b in g.freed and b != 'null':
             viol.append(('AR.2', None, f'at return m_array still points to the freed block {b} with m_size {size}'))
+    fuzzy = None
+    if dom.imprecise: fuzzy = f'{dom.imprecise[0][0]} at {dom.imprecise[0][1]} is not in a form the range summariser handles'
     for r, node, why in viol:
-        rep.violation(r, f'{label} {rs}', node.shortloc() if node is not None else site, why, key=f'{r}|{strip_targs(f.qname)}|{why[:50]}', fn=f.name)
+        # a refutation needs an exact evaluation: with unknown values / unsummarised loops in play the verdict is "not decided"
+        if fuzzy or _UNK.search(why): rep.inconclusive(r, f'{label} {rs}', node.shortloc() if node is not None else site, f'not decided ({fuzzy or "unknown value"}): {why}')
+        else: rep.violation(r, f'{label} {rs}', node.shortloc() if node is not None else site, why, key=f'{r}|{strip_targs(f.qname)}|{why[:50]}', fn=f.name)
     if not viol:
         rep.ok('AR.2' if not ctor else 'AR.1', f'{label} {rs}: live elements == m_size == {size}; allocation / copy counts agree', site)
     if f.d.get('move') or f.d.get('moveassign') or base == 'swap':
-        sw = [p for k, n, p in events if k == 'c' and p[0] == 'swap']
-        flds = set()
-        for p in sw:
-            for loc in (p[1], p[2]):
-                if loc[0] == 'f': flds.add(loc[1][-1])
-        rep.check(flds == {'m_size', 'm_array'}, 'AR.3', f'{label}: exchanges both fields', site, f'only {sorted(flds)} are exchanged', key=f'AR.3|swap|{strip_targs(f.qname)}', fn=f.name)
+        # however it is written (swap, std::exchange, assignments): *this ends with the source's entry state, the source with a
+        # consistent one (the former state of *this, or the empty array)
+        if not [1 for k, n, p in events if k in ('write',) or (k == 'c' and p[0] == 'swap')]: return        # self-assignment path
+        on = f.d['params'][0]['name'] if f.d.get('params') else 'other'
+        names = ('m_size', 'm_array')
+        was = dom.ctor; dom.ctor = False
+        entry_other = {n_: dom.init_field((on, n_), None) for n_ in names}
+        dom.ctor = was
+        entry_this = {n_: dom.init_field(('this', n_), None) for n_ in names}
+        fin_this = {n_: field(P, 'this', n_, dom) for n_ in names}; fin_other = {n_: field(P, on, n_, dom) for n_ in names}
+        def same(a, b):
+            isnull = lambda x: (isinstance(x, Ptr) and x.base == 'null') or (isinstance(x, Lin) and x == Lin.const(0)) or (isinstance(x, int) and x == 0)
+            if isnull(a) and isnull(b): return True
+            if isinstance(a, Ptr) and isinstance(b, Ptr): return a == b
+            la, lb = (as_lin(a) if isinstance(a, (Lin, int)) else None), (as_lin(b) if isinstance(b, (Lin, int)) else None)
+            return la is not None and lb is not None and la == lb
+        bad = [n_ for n_ in names if not same(fin_this[n_], entry_other[n_])]
+        followed = all(isinstance(v, (Lin, Ptr, int)) for v in list(fin_this.values()) + list(fin_other.values()))
+        inst = f'{label}: *this takes over both fields of the source'
+        if not bad: rep.ok('AR.3', inst, site)
+        elif not followed: rep.inconclusive('AR.3', inst, site, f'{bad[0]} becomes {fin_this[bad[0]]}')
+        else: rep.violation('AR.3', inst, site, 'after the move ' + ', '.join(f'{n_} = {fin_this[n_]}' for n_ in bad) + f' (the source had {", ".join(f"{n_} = {entry_other[n_]}" for n_ in bad)})', key=f'AR.3|swap|{strip_targs(f.qname)}', fn=f.name)
+        swapped = all(same(fin_other[n_], entry_this[n_]) for n_ in names)
+        emptied = same(fin_other['m_size'], Lin.const(0)) and same(fin_other['m_array'], Ptr('null'))
+        inst = f'{label}: the source is left consistent (the former state of *this, or empty)'
+        if swapped or emptied: rep.ok('AR.3', inst, site)
+        elif not followed: rep.inconclusive('AR.3', inst, site, 'a field of the source gets a value the evaluator does not follow')
+        else: rep.violation('AR.3', inst, site, 'the source keeps ' + ', '.join(f'{n_} = {fin_other[n_]}' for n_ in names) + ': two arrays own one block (double free) or the states are mixed', key=f'AR.3|swap-src|{strip_targs(f.qname)}', fn=f.name)
 
 
 # =====================================================================================================================
